@@ -874,7 +874,7 @@ class MacroProgram(ElementProgram):
                 if expr is not None:
                     if name is None:
                         expression = nodes.Value(
-                            decode_htmlentities(expr),
+                            expr,
                             default,
                             self.default_marker
                         )
@@ -893,7 +893,7 @@ class MacroProgram(ElementProgram):
                             expr, name, default, self.default_marker)
                     else:
                         value = nodes.Substitution(
-                            decode_htmlentities(expr),
+                            expr,
                             char_escape,
                             default,
                             self.default_marker,
